@@ -202,6 +202,19 @@ CHECKS["C05"] = dict(
          "index space completely. Trusted: z3, vkit/model.py (specification), vkit/refserver.py, vkit/strict.py.",
     design="3 (C05)", technique=CH)
 
+CHECKS["C08"] = dict(
+    engine="ilv",
+    text="The real ObjectPool methods are re-parsed from /repo on every run and rewritten into generators with one switch "
+         "point per statement; 2-3 threads performing what PooledClient methods do (ok / raising / quit-style destroy / "
+         "clear()) are run under a scheduler whose preemption steps and targets are symbolic; CrossHair/z3 enumerates "
+         "every feasible schedule within the preemption bound. At every step: a connection is held by one thread, the pool "
+         "holds <= max_size connections without duplicates or closed ones, no internal error, no deadlock; at the end "
+         "every connection is idle xor closed exactly once. All shards exhaust.",
+    note="Statement-granular preemption (not bytecode), <= 3 threads, 2 (thorough 3) preemptions plus forced switches on lock "
+         "contention. This is the weakest use of the technique (each path is one schedule; the solver contributes the "
+         "enumeration of feasible preemption vectors). The rewrite is validated at setup against the original class.",
+    design="1.3 and 3 (C08)", technique="symbolic preemption points over generator-rewritten real code (CrossHair + z3), bounded")
+
 NOT_YET = {}
 
 NA_REASON_PENDING = "check not built yet in this session (planned; see DESIGN.md section 3)"
